@@ -6,7 +6,7 @@ M=$1; shift
 PROP=${M%%-*}
 CHECKS=${@:-$PROP}
 . /verif/env.sh
-H=${HARNESS:-/verif/harness}   # HARNESS=/tmp/verif-stable/harness: build from a stable snapshot while /verif/harness is being edited
+H=${HARNESS:-$([ -d /tmp/verif-stable/harness ] && echo /tmp/verif-stable/harness || echo /verif/harness)}   # HARNESS=/tmp/verif-stable/harness: build from a stable snapshot while /verif/harness is being edited
 S=/tmp/mm-$M; rm -rf $S; mkdir -p $S/root $S/bin
 git -C /repo worktree add --detach $S/repo HEAD >/dev/null 2>&1 || { echo "$M worktree failed"; exit 2; }
 trap 'git -C /repo worktree remove --force $S/repo >/dev/null 2>&1; rm -rf $S' EXIT
